@@ -102,6 +102,15 @@ Print Assumptions C12_retrip.
 
 (* the model's ramp (factor 1/2, strict comparison) is the one the source has now: Gen/Consts.v is regenerated from
    cbreaker/ratio.go on every run *)
+(* a request that was passed on and whose handler then gives up by panicking (no response, nothing recorded, no check)
+   stays a request that was passed on: the breaker's state, its deadline and the ramp's counts of admitted and refused
+   requests are what they were, so the bound above keeps counting it *)
+Theorem C12_aborted_request_keeps_its_admission : forall c s k,
+  fst (xstep c s [7; k]) = s /\
+  snd (xstep c s [7; k]) = [state_code (state s); nTripped s; nStandby s].
+Proof. intros. split; reflexivity. Qed.
+Print Assumptions C12_aborted_request_keeps_its_admission.
+
 Theorem C12_constants_match_source :
   (Consts.rampFactor == 1 # 2)%Q /\ Consts.rampStrict = true.
 Proof. split; reflexivity. Qed.
